@@ -29,6 +29,10 @@ const WORKER_ENV: &str = "VERIF_C04_WORKER";
 const CASE_TIMEOUT: Duration = Duration::from_secs(10);
 const WORKER_STACK: usize = 8 << 20;
 const VIOLATION_DEPTH: usize = 256;
+/// address-space limit of a worker (KiB): 4 GiB; the largest legitimate case needs ~0.15 GiB
+const WORKER_AS_KIB: u64 = 4 << 20;
+/// time allowed for one case: 10 s plus 1 s per 4 KiB of input (the 100 KB / 10 000-statement inputs)
+fn allowed(len: usize) -> Duration { CASE_TIMEOUT + Duration::from_secs(len as u64 / 4096) }
 
 // =============================================================================================
 // cases
@@ -135,7 +139,7 @@ fn eval_case(c: &Case) -> Verdict {
         let l = normalise(first_line, 80);
         class = format!("fails-without-error:{l}");
         viol = Some(format!("C04:fails-without-error:{k}:{l}"));
-    } else if ms >= CASE_TIMEOUT.as_millis() as u64 {
+    } else if ms >= allowed(c.src.len() + c.maps.iter().map(|m| m.len()).sum::<usize>()).as_millis() as u64 {
         class = "slow".into();
         viol = Some(format!("C04:timeout:{}{}", sigkey_prefix(c), k));
     } else if ok {
@@ -190,7 +194,7 @@ fn worker_loop(thorough: bool) {
         let mut o = stdout.lock();
         if let Some(raw) = req.get("raw") {
             let c = match case_from_json(raw) { Some(c) => c, None => { let _ = writeln!(o, "R {}", json!({"error": "bad raw case"})); let _ = o.flush(); continue } };
-            let _ = writeln!(o, "S 0"); let _ = o.flush();
+            let _ = writeln!(o, "S 0 {}", c.src.len() + c.maps.iter().map(|m| m.len()).sum::<usize>()); let _ = o.flush();
             let v = eval_case(&c);
             let _ = writeln!(o, "R {}", json!({"class": v.class, "viol": v.viol, "ms": v.ms, "ok": v.ok, "diag": v.diag.chars().take(6000).collect::<String>()}));
             let _ = o.flush();
@@ -208,12 +212,14 @@ fn worker_loop(thorough: bool) {
         let mut fails: BTreeMap<String, (u64, usize, usize)> = BTreeMap::new(); // sig -> (count, min len, index)
         let mut notes: Vec<Value> = vec![];
         let mut max_ms = (0u64, 0usize);
+        let mut slow: Vec<Value> = vec![];
         let mut hwm = vm_hwm_kb();
         for k in from..until {
             let c = &cases[k];
-            let _ = writeln!(o, "S {k}"); let _ = o.flush();
+            let _ = writeln!(o, "S {k} {}", c.src.len() + c.maps.iter().map(|m| m.len()).sum::<usize>()); let _ = o.flush();
             let v = eval_case(c);
             if v.ms > max_ms.0 { max_ms = (v.ms, k); }
+            if v.ms >= 1000 { slow.push(json!({"index": k, "ms": v.ms, "desc": c.desc, "bytes": c.src.len()})); }
             let ix = *class_ix.entry(v.class.clone()).or_insert_with(|| { classes.push(v.class.clone()); classes.len() - 1 });
             rows.push(json!([format!("{:016x}", c.hash64()), ix]));
             let mut viol = v.viol.clone();
@@ -231,7 +237,7 @@ fn worker_loop(thorough: bool) {
         }
         let fails: Vec<Value> = fails.into_iter().map(|(s, (n, len, k))| json!({"sig": s, "count": n, "len": len, "index": k})).collect();
         let _ = writeln!(o, "R {}", json!({"total": cases.len(), "from": from, "until": until, "classes": classes, "rows": rows, "fails": fails,
-            "notes": notes, "max_ms": max_ms.0, "max_ms_index": max_ms.1, "hwm_kb": hwm}));
+            "notes": notes, "slow": slow, "max_ms": max_ms.0, "max_ms_index": max_ms.1, "hwm_kb": hwm}));
         let _ = o.flush();
     }
 }
@@ -258,7 +264,11 @@ fn case_from_json(v: &Value) -> Option<Case> {
 struct Worker { child: Child, stdin: ChildStdin, rx: mpsc::Receiver<String>, stderr: Arc<Mutex<Vec<u8>>> }
 
 fn spawn_worker(tier: &str) -> Worker {
-    let mut child = Command::new(drive::exe_snapshot())
+    // RLIMIT_AS via the shell (no libc binding in this crate): a runaway allocation dies quickly with
+    // "memory allocation of N bytes failed" instead of eating the machine's memory until the timeout
+    let mut child = Command::new("sh")
+        .arg("-c").arg(format!("ulimit -v {WORKER_AS_KIB} 2>/dev/null; exec \"$0\" \"$@\""))
+        .arg(drive::exe_snapshot())
         .args(["run", "C04", tier]).env(WORKER_ENV, "1").env("RUST_BACKTRACE", "0").env_remove("TRUTH_MAP_PATH")
         .stdin(Stdio::piped()).stdout(Stdio::piped()).stderr(Stdio::piped()).spawn().expect("spawn C04 worker");
     let stdin = child.stdin.take().unwrap();
@@ -302,18 +312,23 @@ fn attempt(slot: &mut Option<Worker>, tier: &str, req: &Value) -> Attempt {
     let w = slot.as_mut().unwrap();
     let sent = writeln!(w.stdin, "{req}").and_then(|_| w.stdin.flush());
     let mut cur: Option<usize> = None;
+    let mut wait = allowed(0);
     if sent.is_ok() {
         loop {
-            match w.rx.recv_timeout(CASE_TIMEOUT + Duration::from_secs(2)) {
+            match w.rx.recv_timeout(wait + Duration::from_secs(2)) {
                 Ok(l) => {
-                    if let Some(k) = l.strip_prefix("S ") { cur = k.trim().parse().ok(); }
+                    if let Some(k) = l.strip_prefix("S ") {
+                        let mut it = k.split_whitespace();
+                        cur = it.next().and_then(|x| x.parse().ok());
+                        wait = allowed(it.next().and_then(|x| x.parse().ok()).unwrap_or(0));
+                    }
                     else if let Some(r) = l.strip_prefix("R ") {
                         match serde_json::from_str::<Value>(r) { Ok(v) => return Attempt::Done(v), Err(e) => { let how = format!("unparsable worker result: {e}"); slot.take().map(|w| w.kill()); return Attempt::Died { at: None, how, timeout: false } } }
                     }
                 },
                 Err(mpsc::RecvTimeoutError::Timeout) => {
                     let how = slot.take().map(|w| w.kill()).unwrap_or_default();
-                    return Attempt::Died { at: cur, how: format!("no answer within {} s; killed ({how})", CASE_TIMEOUT.as_secs()), timeout: true };
+                    return Attempt::Died { at: cur, how: format!("no answer within {} s; killed ({how})", wait.as_secs()), timeout: true };
                 },
                 Err(mpsc::RecvTimeoutError::Disconnected) => break,
             }
@@ -331,6 +346,7 @@ struct ItemAcc {
     deaths: Vec<(usize, String, bool)>,   // confirmed: index, how, timeout
     machinery: Vec<String>,
     notes: Vec<Value>,
+    slow: Vec<Value>,
     max_ms: (u64, usize),
     hwm_kb: u64,
 }
@@ -347,6 +363,7 @@ impl ItemAcc {
             self.fails.push((f["sig"].as_str().unwrap_or("").into(), f["count"].as_u64().unwrap_or(1), f["len"].as_u64().unwrap_or(0) as usize, f["index"].as_u64().unwrap_or(0) as usize));
         }
         for n in v["notes"].as_array().into_iter().flatten() { self.notes.push(n.clone()); }
+        for n in v["slow"].as_array().into_iter().flatten() { self.slow.push(n.clone()); }
         let ms = v["max_ms"].as_u64().unwrap_or(0);
         if ms > self.max_ms.0 { self.max_ms = (ms, v["max_ms_index"].as_u64().unwrap_or(0) as usize); }
         self.hwm_kb = self.hwm_kb.max(v["hwm_kb"].as_u64().unwrap_or(0));
@@ -413,7 +430,10 @@ const MSG06_META: &str = "meta {\n    table: {0: {script: \"main\"}},\n}\n";
 const MSG09_META: &str = "meta {\n    table: {0: {script: \"main\", flags: 256}},\n}\n";
 
 /// Test instructions 2000.. used by the generated bodies (same shape in every language).
-fn test_map(kind: Kind) -> String {
+fn test_map(kind: Kind) -> String { test_map_for(kind, false) }
+/// `fixed12`: EoSD-format STD instructions always carry 12 bytes of arguments
+fn test_map_for(kind: Kind, fixed12: bool) -> String {
+    if fixed12 { return "!stdmap\n!ins_signatures\n2000 S__\n2001 f__\n2002 SS_\n2003 z(bs=12)\n2004 ___\n2005 Sf_\n!ins_names\n2000 takeInt\n2001 takeFloat\n".into(); }
     let magic = match kind { Kind::Anm => "!anmmap", Kind::Std => "!stdmap", Kind::Msg => "!msgmap", Kind::End => "!endmap", Kind::Ecl => "!eclmap", Kind::Mission => "!msgmap" };
     let mut s = format!("{magic}\n!ins_signatures\n2000 S\n2001 f\n2002 SS\n2003 z(bs=4)\n2004 \n2005 Sf\n!ins_names\n2000 takeInt\n2001 takeFloat\n");
     if kind == Kind::Ecl { s += "!timeline_ins_signatures\n2000 S\n2001 f\n2004 \n"; }
@@ -441,7 +461,8 @@ fn tpl(key: &str) -> Tpl { *TPLS.iter().find(|t| t.key == key).unwrap_or_else(||
 impl Tpl {
     fn tool(&self) -> Tool { tool(self.kind, self.game) }
     fn wrap(&self, body: &str) -> String { format!("{}{}{}{}", self.head, self.open, body, self.close) }
-    fn case(&self, body: &str, desc: impl Into<String>) -> Case { Case::new(self.tool(), self.wrap(body), &[&test_map(self.kind)], desc) }
+    fn map(&self) -> String { test_map_for(self.kind, self.key == "std06") }
+    fn case(&self, body: &str, desc: impl Into<String>) -> Case { Case::new(self.tool(), self.wrap(body), &[&self.map()], desc) }
     fn has_regs(&self) -> bool { self.ireg != 0 }
 }
 
@@ -592,6 +613,7 @@ fn byte_cases(seed_ix: usize, op: &str, seeds: &[Seed], thorough: bool) -> Vec<C
 // =============================================================================================
 // (iv) extreme literals
 
+const LIT_CHUNK: usize = 4;
 const LIT_TPLS: &[&str] = &["anm12", "ecl08", "ecl06", "std12", "msg12", "anm06", "end10", "tl08"];
 
 fn rep(s: &str, n: usize) -> String { s.repeat(n) }
@@ -878,7 +900,7 @@ fn map_cases(sub: &str, key: &str) -> Vec<Case> {
                 ("enum(name=\"é\")".into(), format!("{magic}\n!enum(name=\"é\")\n1 a\n")), ("enum(nom=\"a\")".into(), format!("{magic}\n!enum(nom=\"a\")\n1 a\n")), ("ins_names(x)".into(), format!("{magic}\n!ins_names(x)\n1 a\n")),
                 ("CRLF line ends".into(), vm.replace('\n', "\r\n")), ("CR line ends".into(), vm.replace('\n', "\r")), ("tabs".into(), vm.replace(' ', "\t")), ("no final newline".into(), vm.trim_end().to_string()),
                 ("comment lines".into(), vm.replace('\n', " # c\n")), ("NUL byte".into(), vm.replacen("takeInt", "take\0Int", 1)), ("100 KB line".into(), format!("{magic}\n!ins_names\n1 {}\n", rep("a", 100_000))),
-                ("100 KB signature".into(), format!("{magic}\n!ins_signatures\n2000 {}\n", rep("S", 100_000))), ("10 000 entries".into(), format!("{magic}\n!ins_names\n{}", (0..10_000).map(|i| format!("{i} name{i}\n")).collect::<String>())),
+                ("10 000-letter signature".into(), format!("{magic}\n!ins_signatures\n2000 {}\n", rep("S", 10_000))), ("10 000 entries".into(), format!("{magic}\n!ins_names\n{}", (0..10_000).map(|i| format!("{i} name{i}\n")).collect::<String>())),
                 ("keyword as name".into(), format!("{magic}\n!ins_names\n1 int\n2 if\n3 REG\n4 ins_5\n5 sin\n6 _S\n")), ("name `ins_7` for opcode 8".into(), format!("{magic}\n!ins_names\n8 ins_7\n")), ("unicode name".into(), format!("{magic}\n!ins_names\n1 日本\n")),
                 ("name with dash".into(), format!("{magic}\n!ins_names\n1 a-b\n")), ("name with space".into(), format!("{magic}\n!ins_names\n1 a b\n")), ("gvar type garbage".into(), format!("{magic}\n!gvar_types\n1 x\n2 \n3 $$\n4 %\n")),
                 ("var and ins share a name".into(), format!("{magic}\n!ins_names\n1 foo\n!gvar_names\n1 foo\n")), ("ins_rets".into(), format!("{magic}\n!ins_rets\n1 S\n2 x\n")),
@@ -965,51 +987,52 @@ fn map_cases(sub: &str, key: &str) -> Vec<Case> {
 const LATE_TPLS: &[&str] = &["anm12", "ecl06", "ecl08", "anm06", "anm16", "ecl07", "std12", "msg12", "std06"];
 
 /// (body, items appended to the file)
-fn late_faults(t: &Tpl) -> Vec<(String, String)> {
-    let mut v: Vec<(String, String)> = vec![];
-    let mut b = |body: &str| v.push((body.to_string(), String::new()));
+fn late_faults(t: &Tpl) -> Vec<(String, String, bool)> {
+    // a leading `~` marks the core set (the faults that pass parsing and type checking and fail later): quick-tier pairs are core x core
+    let mut v: Vec<(String, String, bool)> = vec![];
+    let mut b = |body: &str| v.push((body.trim_start_matches('~').to_string(), String::new(), body.starts_with('~')));
     // faults that need no register
     for st in [
-        "ins_2004();", // control: valid
-        "l:\nl:\n    ins_2004();", "goto nowhere;", "ins_2000(offsetof(nowhere));", "ins_2000(timeof(nowhere));", "l:\n    goto l;", "l:\n    goto l @ 5;",
-        "ins_2003((\"a\":\"b\"));", "ins_2003(\"a\" + \"b\");", "ins_2000(\"a\");", "ins_2003(1);", "const string s = \"a\";\n    ins_2003(s:s);", "ins_2003(\"a\" == \"a\" ? \"b\" : \"c\");",
-        "ins_2000(x);", "int x = 1;\n    ins_2000(x);", "int x;\n    ins_2000(x);", "int x = 1;\n    int x = 2;", "x = 1;\n    int x;", "float y = 1;\n", "int x = 1.0;", "var z = 1;\n    ins_2000(z);",
-        "break;", "loop { ins_2004(); }\n    break;", "loop { ins_2004(); break; }", "return;", "return 1;", "interrupt[1]:\n    ins_2004();", "interrupt[-1]:", "interrupt[1.0]:", "interrupt[x]:",
-        "ins_2000(1:2:3:4);", "{\"E\"}: ins_2004();", "{\"Q\"}: ins_2004();", "{\"\"}: ins_2004();", "{\"*\"}: ins_2004();", "{\"EE-\"}: ins_2004();", "{\"E\"}: { ins_2004(); }", "{\"E\"}: l:",
-        "times(3) { ins_2004(); }", "times(3 = 3) { }", "times(x = 3) { }", "times(0) { }", "if (1) { ins_2004(); }", "if (1.0) { ins_2004(); }", "if (\"a\") { }", "while (1) { ins_2004(); }", "do { ins_2004(); } while (0);",
-        "unless (1 == 1) goto l;\nl:", "if (1 == 1) break;", "const int K = 1;\n    K = 2;", "const int K = 1;\n    ins_2000(K++);", "ins_2000(bool.true);", "ins_2000(Foo.x);", "ins_2000(AnmSprite.nosuch);", "ins_2000(sprite9);", "ins_2000(script9);",
-        "nosuch();", "nosuch(1, 2);", "ins_2000();", "ins_2000(1, 2);", "ins_2000(1.0);", "ins_2001(1);", "ins_2005(1);", "ins_2000(ins_2004());", "ins_2000(takeInt(1));", "ins_9999();", "ins_9999(1, 2.0);", "ins_2000(@mask=1, 1);",
-        "@nosuch(1) async;", "nosuch(1) async;", "nosuch(1) async 5;", "@ins_2004();", "@takeInt(1);", "takeInt(1) async;", "void inner() { ins_2004(); }", "const int inner() { return 1; }\n    ins_2000(inner());", "int inner(int a) { return a; }",
-        "inline void inner() {}", "void inner();", "const void inner() {}\n    inner();", "const int f(int a) { return f(a); }\n    ins_2000(f(1));", "const int f(int a) { return a + 1; }\n    ins_2000(f(f(f(1))));", "const int f() { }\n    ins_2000(f());",
-        "x[1];", "ins_2000(x[1]);", "1;", "1 + 1;", "\"s\";", "ins_2000(1) ;;", "+5:\n-3:\n10:\n    ins_2004();", "10:\n5:\n    ins_2004();\n+(-20):\n    ins_2004();", "ins_2004();\n    ins_0();\n    ins_2004();", "ins_2000(_S(1.0));", "ins_2001(_f(1));", "ins_2000($1);",
+        "~ins_2004();", // control: valid
+        "~l:\nl:\n    ins_2004();", "~goto nowhere;", "~ins_2000(offsetof(nowhere));", "ins_2000(timeof(nowhere));", "l:\n    goto l;", "l:\n    goto l @ 5;",
+        "~ins_2003((\"a\":\"b\"));", "~ins_2003(\"a\" + \"b\");", "ins_2000(\"a\");", "ins_2003(1);", "const string s = \"a\";\n    ins_2003(s:s);", "ins_2003(\"a\" == \"a\" ? \"b\" : \"c\");",
+        "ins_2000(x);", "~int x = 1;\n    ins_2000(x);", "int x;\n    ins_2000(x);", "int x = 1;\n    int x = 2;", "x = 1;\n    int x;", "float y = 1;\n", "int x = 1.0;", "var z = 1;\n    ins_2000(z);",
+        "~break;", "loop { ins_2004(); }\n    break;", "loop { ins_2004(); break; }", "~return;", "return 1;", "~interrupt[1]:\n    ins_2004();", "interrupt[-1]:", "interrupt[1.0]:", "interrupt[x]:",
+        "~ins_2000(1:2:3:4);", "~{\"E\"}: ins_2004();", "~{\"Q\"}: ins_2004();", "{\"\"}: ins_2004();", "{\"*\"}: ins_2004();", "{\"EE-\"}: ins_2004();", "{\"E\"}: { ins_2004(); }", "{\"E\"}: l:",
+        "~times(3) { ins_2004(); }", "times(3 = 3) { }", "times(x = 3) { }", "times(0) { }", "~if (1) { ins_2004(); }", "if (1.0) { ins_2004(); }", "if (\"a\") { }", "while (1) { ins_2004(); }", "do { ins_2004(); } while (0);",
+        "unless (1 == 1) goto l;\nl:", "if (1 == 1) break;", "~const int K = 1;\n    K = 2;", "const int K = 1;\n    ins_2000(K++);", "ins_2000(bool.true);", "ins_2000(Foo.x);", "ins_2000(AnmSprite.nosuch);", "~ins_2000(sprite9);", "ins_2000(script9);",
+        "~nosuch();", "nosuch(1, 2);", "ins_2000();", "ins_2000(1, 2);", "ins_2000(1.0);", "ins_2001(1);", "ins_2005(1);", "ins_2000(ins_2004());", "ins_2000(takeInt(1));", "ins_9999();", "ins_9999(1, 2.0);", "ins_2000(@mask=1, 1);",
+        "~@nosuch(1) async;", "nosuch(1) async;", "nosuch(1) async 5;", "@ins_2004();", "@takeInt(1);", "takeInt(1) async;", "~void inner() { ins_2004(); }", "const int inner() { return 1; }\n    ins_2000(inner());", "int inner(int a) { return a; }",
+        "~inline void inner() {}", "void inner();", "~const void inner() {}\n    inner();", "const int f(int a) { return f(a); }\n    ins_2000(f(1));", "const int f(int a) { return a + 1; }\n    ins_2000(f(f(f(1))));", "const int f() { }\n    ins_2000(f());",
+        "~x[1];", "ins_2000(x[1]);", "1;", "1 + 1;", "\"s\";", "ins_2000(1) ;;", "+5:\n-3:\n10:\n    ins_2004();", "10:\n5:\n    ins_2004();\n+(-20):\n    ins_2004();", "~ins_2004();\n    ins_0();\n    ins_2004();", "ins_2000(_S(1.0));", "ins_2001(_f(1));", "ins_2000($1);",
     ] { b(st); }
     if t.has_regs() {
         let (r, f) = (format!("$REG[{}]", t.ireg), format!("%REG[{}]", t.freg));
-        let many: String = (0..12).map(|i| format!("int a{i} = {r};\n    ")).collect::<String>() + &format!("{r} = a0 + a1 + a2 + a3 + a4 + a5 + a6 + a7 + a8 + a9 + a10 + a11;");
-        let manyf: String = (0..12).map(|i| format!("float b{i} = {f};\n    ")).collect::<String>() + &format!("{f} = b0 + b11;");
+        let many: String = "~".to_string() + &(0..12).map(|i| format!("int a{i} = {r};\n    ")).collect::<String>() + &format!("{r} = a0 + a1 + a2 + a3 + a4 + a5 + a6 + a7 + a8 + a9 + a10 + a11;");
+        let manyf: String = "~".to_string() + &(0..12).map(|i| format!("float b{i} = {f};\n    ")).collect::<String>() + &format!("{f} = b0 + b11;");
         for st in [
-            many, manyf, format!("{r} = ({r} + 1) * (({r} + 2) * (({r} + 3) * (({r} + 4) * (({r} + 5) * ({r} + 6)))));"), format!("{f} = ({f} + 1.0) * (({f} + 2.0) * (({f} + 3.0) * (({f} + 4.0) * ({f} + 5.0))));"),
-            format!("{r} = {r} % 3;"), format!("{r} = {r} << 2;"), format!("{r} = {r} >>> 1;"), format!("{r} = {r} & 1;"), format!("{r} = {r} ^ {r};"), format!("{r} = ~{r};"), format!("{r} = !{r};"), format!("{r} = -{r};"), format!("{r} = {r} && {r};"), format!("{r} = {r} || 1;"),
-            format!("{r} = {r} == 1;"), format!("{r} = {r} < {r};"), format!("{f} = sqrt({f});"), format!("{f} = tan({f});"), format!("{f} = asin({f});"), format!("{f} = acos({f});"), format!("{f} = atan({f});"), format!("{f} = sin({f});"), format!("{f} = cos({f});"), format!("{f} = -{f};"),
-            format!("{r} = int({f});"), format!("{f} = float({r});"), format!("{r} = int({f} + 1.0) + 1;"), format!("{r} = _S({f});"), format!("{f} = _f({r});"), format!("{r} = ${};", &f[1..]), format!("{r} = {f};"), format!("{f} = {r};"), format!("{r} = 1.0;"), format!("{f} = 1;"), format!("{r} = \"a\";"),
-            format!("{r} <<= 1;"), format!("{r} %= 2;"), format!("{r} |= 1;"), format!("{r} >>>= 1;"), format!("{f} %= 2.0;"), format!("{r} /= 0;"), format!("{r}++;"), format!("++{r};"), format!("ins_2000({r}++);"), format!("{r} = {r} ? 1 : 2;"), format!("{r} = {r} ? {r} : ({r} ? 1 : 2);"),
-            format!("{r} = 1:2:3:4;"), format!("{r} = ({r}:2:3:4) + 1;"), format!("ins_2000({r}:{r}:1:2);"), format!("ins_2000(({r} + 1):2:3:4);"), format!("{{\"E\"}}: {r} = {r} + ({r} * 2);"),
-            format!("if ({r}) {{ ins_2004(); }}"), format!("if ({f}) {{ ins_2004(); }}"), format!("if ({r} == 1 && {r} == 2 || {r} == 3) {{ ins_2004(); }} else {{ ins_2004(); }}"), format!("if (!({r} < 1)) goto l;\nl:"), format!("while ({r}--) {{ ins_2004(); }}"),
-            format!("times({r}) {{ ins_2004(); }}"), format!("times({r} = 3) {{ ins_2004(); }}"), format!("times({f} = 3) {{ ins_2004(); }}"), format!("times({r} = {r}) {{ }}"), format!("times(3) {{ times(3) {{ times(3) {{ times(3) {{ times(3) {{ ins_2004(); }} }} }} }} }}"),
-            format!("interrupt[{r}]:"), format!("ins_2000(@mask=1, {r});"), format!("ins_2000(@mask=0, {r});"), format!("ins_2001({r});"), format!("ins_2000({f});"), format!("ins_2003({r});"), format!("ins_2000({r} + 1);"), format!("ins_2002({r} + 1, {r} * 2);"), format!("ins_2005({r} * 2, {f} * 2.0);"),
-            format!("{r} = offsetof(l);\nl:"), format!("{r} = {r} + offsetof(nowhere);"), format!("ins_509();\n    {f} = ({f} + 1.0) * (({f} + 2.0) * ({f} + 3.0));"), format!("ins_130(1);\n    {f} = ({f} + 1.0) * (({f} + 2.0) * ({f} + 3.0));"),
-            format!("$REG[99999] = {r};"), format!("{r} = $REG[99999] + 1;"), format!("int a = {r};\n    {{ int a = a + 1; {r} = a; }}\n    {r} = a;"), format!("int a = {r};\n    goto l;\n    {{ int b = 1;\nl:\n    {r} = b; }}"),
+            many, manyf, format!("~{r} = ({r} + 1) * (({r} + 2) * (({r} + 3) * (({r} + 4) * (({r} + 5) * ({r} + 6)))));"), format!("~{f} = ({f} + 1.0) * (({f} + 2.0) * (({f} + 3.0) * (({f} + 4.0) * ({f} + 5.0))));"),
+            format!("~{r} = {r} % 3;"), format!("~{r} = {r} << 2;"), format!("{r} = {r} >>> 1;"), format!("{r} = {r} & 1;"), format!("{r} = {r} ^ {r};"), format!("~{r} = ~{r};"), format!("~{r} = !{r};"), format!("{r} = -{r};"), format!("{r} = {r} && {r};"), format!("{r} = {r} || 1;"),
+            format!("{r} = {r} == 1;"), format!("{r} = {r} < {r};"), format!("~{f} = sqrt({f});"), format!("~{f} = tan({f});"), format!("{f} = asin({f});"), format!("{f} = acos({f});"), format!("{f} = atan({f});"), format!("{f} = sin({f});"), format!("{f} = cos({f});"), format!("{f} = -{f};"),
+            format!("~{r} = int({f});"), format!("~{f} = float({r});"), format!("{r} = int({f} + 1.0) + 1;"), format!("{r} = _S({f});"), format!("{f} = _f({r});"), format!("{r} = ${};", &f[1..]), format!("~{r} = {f};"), format!("{f} = {r};"), format!("{r} = 1.0;"), format!("{f} = 1;"), format!("{r} = \"a\";"),
+            format!("{r} <<= 1;"), format!("{r} %= 2;"), format!("{r} |= 1;"), format!("{r} >>>= 1;"), format!("{f} %= 2.0;"), format!("{r} /= 0;"), format!("~{r}++;"), format!("++{r};"), format!("ins_2000({r}++);"), format!("~{r} = {r} ? 1 : 2;"), format!("{r} = {r} ? {r} : ({r} ? 1 : 2);"),
+            format!("~{r} = 1:2:3:4;"), format!("~{r} = ({r}:2:3:4) + 1;"), format!("ins_2000({r}:{r}:1:2);"), format!("ins_2000(({r} + 1):2:3:4);"), format!("{{\"E\"}}: {r} = {r} + ({r} * 2);"),
+            format!("~if ({r}) {{ ins_2004(); }}"), format!("if ({f}) {{ ins_2004(); }}"), format!("if ({r} == 1 && {r} == 2 || {r} == 3) {{ ins_2004(); }} else {{ ins_2004(); }}"), format!("if (!({r} < 1)) goto l;\nl:"), format!("while ({r}--) {{ ins_2004(); }}"),
+            format!("~times({r}) {{ ins_2004(); }}"), format!("times({r} = 3) {{ ins_2004(); }}"), format!("~times({f} = 3) {{ ins_2004(); }}"), format!("times({r} = {r}) {{ }}"), format!("times(3) {{ times(3) {{ times(3) {{ times(3) {{ times(3) {{ ins_2004(); }} }} }} }} }}"),
+            format!("~interrupt[{r}]:"), format!("ins_2000(@mask=1, {r});"), format!("ins_2000(@mask=0, {r});"), format!("ins_2001({r});"), format!("ins_2000({f});"), format!("ins_2003({r});"), format!("ins_2000({r} + 1);"), format!("ins_2002({r} + 1, {r} * 2);"), format!("ins_2005({r} * 2, {f} * 2.0);"),
+            format!("{r} = offsetof(l);\nl:"), format!("{r} = {r} + offsetof(nowhere);"), format!("~ins_509();\n    {f} = ({f} + 1.0) * (({f} + 2.0) * ({f} + 3.0));"), format!("~ins_130(1);\n    {f} = ({f} + 1.0) * (({f} + 2.0) * ({f} + 3.0));"),
+            format!("~$REG[99999] = {r};"), format!("{r} = $REG[99999] + 1;"), format!("int a = {r};\n    {{ int a = a + 1; {r} = a; }}\n    {r} = a;"), format!("int a = {r};\n    goto l;\n    {{ int b = 1;\nl:\n    {r} = b; }}"),
         ] { b(&st); }
     }
     // file-level faults
-    let mut i = |items: &str| v.push(("ins_2004();".to_string(), items.to_string()));
+    let mut i = |items: &str| v.push(("ins_2004();".to_string(), items.trim_start_matches('~').to_string(), items.starts_with('~')));
     for it in [
-        "inline void f() {}\n", "void f();\n", "int f() { return 1; }\n", "float f(float a) { return a; }\n", "const int f() { return 1; }\n", "void f(string s) {}\n", "void f(var x) {}\n", "void f(int x, int y) {}\n", "void f(float a, int b, float c) {}\n",
+        "~inline void f() {}\n", "~void f();\n", "~int f() { return 1; }\n", "float f(float a) { return a; }\n", "const int f() { return 1; }\n", "void f(string s) {}\n", "void f(var x) {}\n", "void f(int x, int y) {}\n", "void f(float a, int b, float c) {}\n",
         "void f(int) {}\n", "void f(int a, int a) {}\n", "void f() {}\nvoid f() {}\n", "const void f() {}\nvoid f() {}\n", "void f() { f(); }\n", "void f(int a) { g(a); }\nvoid g(int a) { f(a); }\n", "void f(int a) { f(1.0); }\n", "void f(int a) { f(); }\n",
-        "script 5 extra {}\n", "script -1 extra {}\n", "script 65536 extra {}\n", "script 1 aa {}\nscript 1 bb {}\n", "script extra {}\nscript extra {}\n", "script script0 {}\n", "script sub0 {}\n", "script extra { ins_0(nosuch, 1.0, 2.0, 3.0, 4, 5, 6); }\n",
+        "~script 5 extra {}\n", "~script -1 extra {}\n", "script 65536 extra {}\n", "script 1 aa {}\nscript 1 bb {}\n", "script extra {}\nscript extra {}\n", "script script0 {}\n", "script sub0 {}\n", "~script extra { ins_0(nosuch, 1.0, 2.0, 3.0, 4, 5, 6); }\n",
         "script extra { ins_2000(1); }\n", "script extra { ins_2000(@arg0=5, 1); }\n", "script extra { ins_2004(@arg0=5); }\n", "script extra { sub0(); }\n", "script extra { int x = 1; }\n", "script extra { $REG[10000] = 1; }\n",
-        "const int K = K2;\nconst int K2 = K;\n", "const int K = 1;\nconst int K = 2;\n", "const float K = \"s\";\n", "const string K = 1;\n", "const int K = 1.5;\n", "const int K = nosuch;\n", "const int K = sprite0;\n", "const int K = 1 / 0;\n", "const int sprite0 = 5;\n", "const int sub0 = 1;\n",
-        "meta { x: 1 }\n", "entry { path: \"a\" }\n", "entry {}\n", "meta {}\n", "#pragma mapfile \"nosuch.map\"\n", "#pragma image_source \"nosuch.anm\"\n", "#pragma bogus \"x\"\n",
+        "~const int K = K2;\nconst int K2 = K;\n", "const int K = 1;\nconst int K = 2;\n", "const float K = \"s\";\n", "const string K = 1;\n", "const int K = 1.5;\n", "const int K = nosuch;\n", "const int K = sprite0;\n", "const int K = 1 / 0;\n", "const int sprite0 = 5;\n", "const int sub0 = 1;\n",
+        "~meta { x: 1 }\n", "entry { path: \"a\" }\n", "entry {}\n", "meta {}\n", "#pragma mapfile \"nosuch.map\"\n", "#pragma image_source \"nosuch.anm\"\n", "#pragma bogus \"x\"\n",
     ] { i(it); }
     v
 }
@@ -1025,22 +1048,51 @@ fn wrap_file(t: &Tpl, bodies: &[&str], items: &str) -> String {
     }
 }
 
+const LATE_CHUNKS: usize = 8;
+
+fn late_contexts(t: &Tpl) -> Vec<(&'static str, String, String)> {
+    let c = if t.has_regs() { format!("$REG[{}] == 0", t.ireg) } else { "1 == 0".to_string() };
+    vec![
+        ("block", "{ ".into(), " }".into()), ("if", format!("if ({c}) {{ "), " }".into()), ("else", format!("if ({c}) {{ ins_2004(); }} else {{ "), " }".into()),
+        ("unless", format!("unless ({c}) {{ "), " }".into()), ("loop", "loop { ".into(), " }".into()), ("times", "times(2) { ".into(), " }".into()),
+        ("while", format!("while ({c}) {{ "), " }".into()), ("do-while", "do { ".into(), format!(" }} while ({c});")), ("after time label", "+10:\n    ".into(), "".into()),
+    ]
+}
+
+/// modes: `alone`; `pairs` (core x core) / `allpairs`; `ctx1` (core faults in every single context) / `ctx2` (all faults in every
+/// context and every context-in-context); an optional `=c` suffix selects chunk c of LATE_CHUNKS
 fn late_cases(key: &str, mode: &str) -> Vec<Case> {
     let t = tpl(key);
     let faults = late_faults(&t);
-    let map = test_map(t.kind);
+    let map = t.map();
     let short = |s: &str| s.replace('\n', " ").chars().take(50).collect::<String>();
+    let (mode, chunk) = match mode.split_once('=') { Some((m, c)) => (m, Some(c.parse::<usize>().unwrap())), None => (mode, None) };
     let mut out = vec![];
-    if mode == "alone" {
-        for (b, it) in &faults { out.push(Case::new(t.tool(), wrap_file(&t, &[b], it), &[&map], format!("{key}: `{}`{}", short(b), if it.is_empty() { String::new() } else { format!(" + item `{}`", short(it)) }))); }
-    } else {
-        for (i, (b1, it1)) in faults.iter().enumerate() { for (j, (b2, it2)) in faults.iter().enumerate() {
-            if i == j { continue; }
-            if !it1.is_empty() && !it2.is_empty() && it1 != it2 && (it1.contains("f(") && it2.contains("f(")) { continue; } // both define `f`: that is a different fault
-            out.push(Case::new(t.tool(), wrap_file(&t, &[b1, b2], &format!("{it1}{it2}")), &[&map], format!("{key}: pair `{}`{} / `{}`{}", short(b1), short(it1), short(b2), short(it2))));
-        } }
+    match mode {
+        "alone" => for (b, it, _) in &faults { out.push(Case::new(t.tool(), wrap_file(&t, &[b], it), &[&map], format!("{key}: `{}`{}", short(b), if it.is_empty() { String::new() } else { format!(" + item `{}`", short(it)) }))); },
+        "pairs" | "allpairs" => {
+            let all = mode == "allpairs";
+            for (i, (b1, it1, c1)) in faults.iter().enumerate() { for (j, (b2, it2, c2)) in faults.iter().enumerate() {
+                if i == j || (!all && !(*c1 && *c2)) { continue; }
+                if !it1.is_empty() && !it2.is_empty() && it1 != it2 && (it1.contains("f(") && it2.contains("f(")) { continue; } // both define `f`: that is a different fault
+                out.push(Case::new(t.tool(), wrap_file(&t, &[b1, b2], &format!("{it1}{it2}")), &[&map], format!("{key}: pair `{}`{} / `{}`{}", short(b1), short(it1), short(b2), short(it2))));
+            } }
+        },
+        "ctx1" | "ctx2" => {
+            let ctxs = late_contexts(&t);
+            for (b, it, core) in &faults {
+                if !it.is_empty() || (mode == "ctx1" && !core) { continue; }
+                for (n1, o1, c1) in &ctxs {
+                    out.push(Case::new(t.tool(), wrap_file(&t, &[&format!("{o1}{b}{c1}")], ""), &[&map], format!("{key}: `{}` inside {n1}", short(b))));
+                    if mode == "ctx2" { for (n2, o2, c2) in &ctxs {
+                        out.push(Case::new(t.tool(), wrap_file(&t, &[&format!("{o2}{o1}{b}{c1}{c2}")], ""), &[&map], format!("{key}: `{}` inside {n1} inside {n2}", short(b))));
+                    } }
+                }
+            }
+        },
+        _ => panic!("bad late mode {mode}"),
     }
-    out
+    match chunk { Some(c) => out.into_iter().enumerate().filter(|(i, _)| i % LATE_CHUNKS == c).map(|(_, x)| x).collect(), None => out }
 }
 
 // =============================================================================================
@@ -1050,13 +1102,12 @@ fn items(thorough: bool) -> Vec<String> {
     let seeds = seeds();
     let mut v = vec!["seed".to_string()];
     v.extend(other_items(thorough));
-    for &i in &smallest_seeds(&seeds, 10) {
+    for &i in &smallest_seeds(&seeds, if thorough { seeds.len() } else { 10 }) {
         v.push(format!("byte:{i}:trunc"));
         for j in 0..BYTE_INS.len() { v.push(format!("byte:{i}:{j}")); }
     }
     for i in 0..seeds.len() {
-        v.push(format!("tok:{i}:del"));
-        if thorough { v.push(format!("tok:{i}:dup")); v.push(format!("tok:{i}:swap")); }
+        v.push(format!("tok:{i}:del")); v.push(format!("tok:{i}:dup")); v.push(format!("tok:{i}:swap"));
     }
     for j in 0..(if thorough { REPL.len() } else { REPL_QUICK }) { for i in 0..seeds.len() { v.push(format!("tok:{i}:rep={j}")); } }
     if thorough { for &i in &smallest_seeds(&seeds, 5) { v.push(format!("tok:{i}:del2")); } }
@@ -1066,13 +1117,16 @@ fn items(thorough: bool) -> Vec<String> {
 fn other_items(thorough: bool) -> Vec<String> {
     let mut v = vec![];
     for k in LATE_TPLS { v.push(format!("late:{k}:alone")); }
-    for k in LIT_TPLS { v.push(format!("lit:{k}")); }
-    v.push("lit:mission095".into());
+    // small chunks: the inputs that make truth hang or abort cost two timeouts each and should not queue up behind one another
+    for k in LIT_TPLS.iter().chain(["mission095"].iter()) { for c in 0..(lit_cases(k).len() + LIT_CHUNK - 1) / LIT_CHUNK { v.push(format!("lit:{k}:{c}")); } }
     for sh in NEST_SHAPES { for k in nest_tpls(sh) { v.push(format!("nest:{sh}:{k}")); } }
     for sub in ["num", "hdr", "del", "attr", "intr", "diff", "enum"] { for k in MAP_TPLS { v.push(format!("map:{sub}:{k}")); } }
     for k in MAP_TPLS { for var in 0..SIG_VARIANTS.len() { v.push(format!("map:sig{var}:{k}")); } }
     if thorough { for k in MAP_TPLS { v.push(format!("map:sig3:{k}")); } }
-    for k in LATE_TPLS { v.push(format!("late:{k}:pairs")); }
+    for k in LATE_TPLS {
+        if thorough { for c in 0..LATE_CHUNKS { v.push(format!("late:{k}:ctx2={c}")); v.push(format!("late:{k}:allpairs={c}")); } }
+        else { v.push(format!("late:{k}:ctx1")); v.push(format!("late:{k}:pairs")); }
+    }
     v
 }
 
@@ -1084,7 +1138,7 @@ fn gen_cases(item: &str, thorough: bool) -> Vec<Case> {
         "seed" => seeds().iter().map(|s| { let maps: Vec<&str> = s.map.iter().map(|m| m.as_str()).collect(); Case::new(tool(s.kind, s.game), s.src.clone(), &maps, format!("seed {}", s.name)) }).collect(),
         "tok" => tok_cases(parts[1].parse().unwrap(), parts[2], &seeds()),
         "byte" => byte_cases(parts[1].parse().unwrap(), parts[2], &seeds(), thorough),
-        "lit" => lit_cases(parts[1]),
+        "lit" => { let c: usize = parts[2].parse().unwrap(); lit_cases(parts[1]).into_iter().skip(c * LIT_CHUNK).take(LIT_CHUNK).collect() },
         "nest" => nest_cases(parts[1], parts[2], thorough),
         "map" => map_cases(parts[1], parts[2]),
         "late" => late_cases(parts[1], parts[2]),
@@ -1133,6 +1187,8 @@ pub fn run(tier: &str) -> Report {
     let mut hwm = 0u64;
     let mut not_run = 0usize;
     let mut nest_deaths: BTreeMap<String, Value> = BTreeMap::new();
+    let mut deaths: Vec<Value> = vec![];
+    let mut slow: Vec<Value> = vec![];
     for (item, acc) in all_items.iter().zip(results.iter()) {
         let fam = family_of(item).to_string();
         let acc = match acc { Some(a) => a, None => { not_run += 1; continue } };
@@ -1157,6 +1213,7 @@ pub fn run(tier: &str) -> Report {
             rep.evaluations += 1; e.1 += 1;
             seen.insert(c.hash64()); nontrivial.insert(c.hash64());
             let what = if *timeout { "timeout" } else { "abort" };
+            deaths.push(json!({"item": item, "index": k, "desc": c.desc, "what": what, "how": how.chars().take(300).collect::<String>(), "information_only": c.info_only}));
             rep.outcome(&format!("{fam}|{what}{}", if c.info_only { " (beyond the property's bound; information only)" } else { "" }));
             if fam == "nest" { nest_deaths.entry(format!("{}:{}", c.sigkey, kind_name(c.tool.kind))).or_insert(json!({"first_death": c.desc, "how": how, "violation": !c.info_only})); }
             if c.info_only { continue; }
@@ -1167,6 +1224,7 @@ pub fn run(tier: &str) -> Report {
             if len < b.1 { b.1 = len; b.2 = item.clone(); b.3 = *k; }
         }
         for m in &acc.machinery { rep.machinery_errors.push(m.clone()); }
+        for n in &acc.slow { let mut n = n.clone(); n["item"] = json!(item); slow.push(n); }
         if fam == "seed" {
             for n in &acc.notes { rep.machinery_errors.push(format!("seed does not compile cleanly: {} -> {} :: {}", n["desc"].as_str().unwrap_or(""), n["class"].as_str().unwrap_or(""), n["diag"].as_str().unwrap_or(""))); }
         }
@@ -1189,7 +1247,11 @@ pub fn run(tier: &str) -> Report {
     rep.extra.insert("family_counts".into(), json!(fam_counts.iter().map(|(k, v)| (k.clone(), json!({"generated": v.0, "evaluated": v.1, "noticed": v.2}))).collect::<serde_json::Map<_, _>>()));
     rep.extra.insert("slowest_case".into(), json!({"ms": slowest.0, "item": slowest.1, "index": slowest.2}));
     rep.extra.insert("worker_max_rss_kb".into(), json!(hwm));
+    slow.sort_by_key(|n| std::cmp::Reverse(n["ms"].as_u64().unwrap_or(0)));
+    slow.truncate(15);
+    rep.extra.insert("cases_over_1s".into(), json!(slow));
     rep.extra.insert("nesting_deaths".into(), json!(nest_deaths));
+    rep.extra.insert("worker_deaths".into(), json!(deaths));
     rep.extra.insert("items".into(), json!(all_items.len()));
 
     // ---- samples
